@@ -59,6 +59,15 @@ func backendRaceOps() []raceOp {
 		{"WriteTTLOwnKeys", true, func(in *raceInst, g, i int) {
 			_ = in.be.Write(ttlCtx(time.Minute), []byte(fmt.Sprintf("own-%d-%d", g, i)), "w")
 		}},
+		// the caller builds its keys in one buffer and rewrites it as soon as Write has returned
+		{"WriteReusedKeyBuffer", true, func(in *raceInst, g, i int) {
+			buf := []byte(fmt.Sprintf("reuse-%02d-%04d", g, i))
+			_ = in.be.Write(bg, buf, "w")
+
+			for j := range buf {
+				buf[j] = 'x'
+			}
+		}},
 		{"Delete", true, func(in *raceInst, g, i int) { _ = in.be.Delete(bg, raceKeys[i%4]) }},
 		{"ExpireAll", true, func(in *raceInst, g, i int) { in.be.ExpireAll(bg) }},
 		{"DeleteAll", true, func(in *raceInst, g, i int) { in.be.DeleteAll(bg) }},
@@ -133,6 +142,12 @@ func failoverRaceOps() []raceOp {
 		{"GetOtherKey", true, func(in *raceInst, g, i int) { get(in, []byte(fmt.Sprintf("other-%d", g)), bg) }},
 		{"GetStale", true, func(in *raceInst, g, i int) { get(in, raceKeys[1], bg) }},
 		{"GetSkipRead", true, func(in *raceInst, g, i int) { get(in, []byte("same"), cache.WithSkipRead(bg)) }},
+		// a builder that panics (the caller recovers): waiters of that build must not race with the unwinding owner
+		{"GetSkipReadPanickingBuilder", true, func(in *raceInst, g, i int) {
+			defer func() { _ = recover() }()
+
+			_, _ = in.fe.Get(cache.WithSkipRead(bg), []byte("same"), func(context.Context) (string, error) { panic("builder gave up") })
+		}},
 		{"GetFailing", true, func(in *raceInst, g, i int) {
 			_, _ = in.fe.Get(bg, []byte("failing"), func(context.Context) (string, error) { return "", io.ErrUnexpectedEOF })
 		}},
